@@ -1,0 +1,229 @@
+//go:build verif
+
+package fileops
+
+import (
+	"fmt"
+	"os"
+	"regexp"
+	"strconv"
+	"strings"
+	"sync"
+	"syscall"
+)
+
+// verif hook: wraps the local VFS so that a test harness can trace every file
+// mutation and kill the process right before the k-th matching one.
+
+type VerifFSCallback func(op, path string, data []byte) (tornPrefix int)
+
+var (
+	verifMu    sync.Mutex
+	verifCB    VerifFSCallback
+	verifTrace *os.File
+	verifCtl   string
+	verifArmed bool
+	verifPat   *regexp.Regexp
+	verifLeft  int
+	verifTorn  int
+	verifSeq   int
+)
+
+func SetVerifFSCallback(cb VerifFSCallback) {
+	verifMu.Lock()
+	verifCB = cb
+	if _, ok := localFS.(*verifVFS); !ok {
+		localFS = &verifVFS{VFS: localFS}
+	}
+	verifMu.Unlock()
+}
+
+func init() {
+	ctl := os.Getenv("VERIF_FS_CTL")
+	if ctl == "" {
+		return
+	}
+	verifCtl = ctl
+	if tr := os.Getenv("VERIF_FS_TRACE"); tr != "" {
+		verifTrace, _ = os.OpenFile(tr, os.O_CREATE|os.O_WRONLY|os.O_APPEND, 0600)
+	}
+	if arm := os.Getenv("VERIF_FS_ARM"); arm != "" {
+		verifParseArm(arm)
+	}
+	localFS = &verifVFS{VFS: localFS}
+}
+
+func verifParseArm(s string) {
+	parts := strings.Split(strings.TrimSpace(s), ",")
+	if len(parts) < 2 {
+		return
+	}
+	re, err := regexp.Compile(parts[0])
+	if err != nil {
+		return
+	}
+	k, err := strconv.Atoi(parts[1])
+	if err != nil || k < 1 {
+		return
+	}
+	verifPat, verifLeft, verifTorn, verifArmed = re, k, -1, true
+	if len(parts) > 2 {
+		verifTorn, _ = strconv.Atoi(parts[2])
+	}
+}
+
+// verifBefore is called with verifMu held, right before a mutation.
+// It returns n >= 0 if only the first n bytes of data must be written before dying.
+func verifBefore(op, path string, data []byte) int {
+	verifSeq++
+	if verifCB != nil {
+		return verifCB(op, path, data)
+	}
+	if verifCtl == "" {
+		return -1
+	}
+	if !verifArmed {
+		if b, err := os.ReadFile(verifCtl); err == nil {
+			_ = os.Remove(verifCtl)
+			verifParseArm(string(b))
+		}
+	}
+	if verifTrace != nil {
+		fmt.Fprintf(verifTrace, "%d %s %s %d\n", verifSeq, op, path, len(data))
+	}
+	if verifArmed && verifPat.MatchString(path) {
+		verifLeft--
+		if verifLeft == 0 {
+			if verifTorn >= 0 && op == "write" && verifTorn < len(data) {
+				return verifTorn
+			}
+			verifDie(op, path)
+		}
+	}
+	return -1
+}
+
+func verifDie(op, path string) {
+	if verifTrace != nil {
+		fmt.Fprintf(verifTrace, "%d DIE-BEFORE %s %s\n", verifSeq, op, path)
+		_ = verifTrace.Sync()
+	}
+	_ = syscall.Kill(os.Getpid(), syscall.SIGKILL)
+	select {}
+}
+
+type verifVFS struct{ VFS }
+
+func (v *verifVFS) wrap(f File, err error) (File, error) {
+	if err != nil || f == nil {
+		return f, err
+	}
+	return &verifFile{File: f}, nil
+}
+
+func (v *verifVFS) OpenFile(name string, flag int, perm os.FileMode, opt ...FSOption) (File, error) {
+	if flag&(os.O_CREATE|os.O_TRUNC) != 0 {
+		verifMu.Lock()
+		defer verifMu.Unlock()
+		verifBefore("openfile", name, nil)
+	}
+	return v.wrap(v.VFS.OpenFile(name, flag, perm, opt...))
+}
+func (v *verifVFS) Create(name string, opt ...FSOption) (File, error) {
+	verifMu.Lock()
+	defer verifMu.Unlock()
+	verifBefore("create", name, nil)
+	return v.wrap(v.VFS.Create(name, opt...))
+}
+func (v *verifVFS) CreateV1(name string, opt ...FSOption) (File, error) { return v.Create(name, opt...) }
+func (v *verifVFS) CreateV2(name string, opt ...FSOption) (File, error) { return v.Create(name, opt...) }
+func (v *verifVFS) Remove(name string, opt ...FSOption) error {
+	verifMu.Lock()
+	defer verifMu.Unlock()
+	verifBefore("remove", name, nil)
+	return v.VFS.Remove(name, opt...)
+}
+func (v *verifVFS) RemoveLocal(name string, opt ...FSOption) error {
+	verifMu.Lock()
+	defer verifMu.Unlock()
+	verifBefore("remove", name, nil)
+	return v.VFS.RemoveLocal(name, opt...)
+}
+func (v *verifVFS) RemoveAll(path string, opt ...FSOption) error {
+	verifMu.Lock()
+	defer verifMu.Unlock()
+	verifBefore("removeall", path, nil)
+	return v.VFS.RemoveAll(path, opt...)
+}
+func (v *verifVFS) RemoveAllWithOutDir(path string, opt ...FSOption) error {
+	verifMu.Lock()
+	defer verifMu.Unlock()
+	verifBefore("removeall", path, nil)
+	return v.VFS.RemoveAllWithOutDir(path, opt...)
+}
+func (v *verifVFS) Mkdir(path string, perm os.FileMode, opt ...FSOption) error {
+	verifMu.Lock()
+	defer verifMu.Unlock()
+	verifBefore("mkdir", path, nil)
+	return v.VFS.Mkdir(path, perm, opt...)
+}
+func (v *verifVFS) MkdirAll(path string, perm os.FileMode, opt ...FSOption) error {
+	verifMu.Lock()
+	defer verifMu.Unlock()
+	verifBefore("mkdirall", path, nil)
+	return v.VFS.MkdirAll(path, perm, opt...)
+}
+func (v *verifVFS) RenameFile(oldPath, newPath string, opt ...FSOption) error {
+	verifMu.Lock()
+	defer verifMu.Unlock()
+	verifBefore("rename", oldPath+" -> "+newPath, nil)
+	return v.VFS.RenameFile(oldPath, newPath, opt...)
+}
+func (v *verifVFS) WriteFile(filename string, data []byte, perm os.FileMode, opt ...FSOption) error {
+	verifMu.Lock()
+	defer verifMu.Unlock()
+	verifBefore("writefile", filename, data)
+	return v.VFS.WriteFile(filename, data, perm, opt...)
+}
+func (v *verifVFS) Truncate(name string, size int64, opt ...FSOption) error {
+	verifMu.Lock()
+	defer verifMu.Unlock()
+	verifBefore("truncate", name, nil)
+	return v.VFS.Truncate(name, size, opt...)
+}
+func (v *verifVFS) CopyFile(srcFile, dstFile string, opt ...FSOption) (int64, error) {
+	verifMu.Lock()
+	defer verifMu.Unlock()
+	verifBefore("copyfile", dstFile, nil)
+	return v.VFS.CopyFile(srcFile, dstFile, opt...)
+}
+
+type verifFile struct{ File }
+
+func (f *verifFile) Write(b []byte) (int, error) {
+	verifMu.Lock()
+	defer verifMu.Unlock()
+	if n := verifBefore("write", f.File.Name(), b); n >= 0 {
+		_, _ = f.File.Write(b[:n])
+		verifDie("write(torn)", f.File.Name())
+	}
+	return f.File.Write(b)
+}
+func (f *verifFile) Truncate(size int64) error {
+	verifMu.Lock()
+	defer verifMu.Unlock()
+	verifBefore("ftruncate", f.File.Name(), nil)
+	return f.File.Truncate(size)
+}
+func (f *verifFile) Sync() error {
+	verifMu.Lock()
+	defer verifMu.Unlock()
+	verifBefore("sync", f.File.Name(), nil)
+	return f.File.Sync()
+}
+func (f *verifFile) SyncUpdateLength() error {
+	verifMu.Lock()
+	defer verifMu.Unlock()
+	verifBefore("sync", f.File.Name(), nil)
+	return f.File.SyncUpdateLength()
+}
